@@ -20,7 +20,9 @@ def run_one(seed, pid, tier):
   os.rmdir(wt)
   try:
     subprocess.run(["git", "-C", "/repo", "worktree", "add", "--detach", wt, "HEAD"], check=True, capture_output=True)
-    subprocess.run(["git", "-C", wt, "apply", os.path.join(SEEDED, seed, "patch.diff")], check=True, capture_output=True)
+    ap = subprocess.run(["git", "-C", wt, "apply", os.path.join(SEEDED, seed, "patch.diff")], capture_output=True, text=True)
+    if ap.returncode != 0:        # the repository moved on (a repair touched the same lines): the patch needs a rebase
+      return {"rc": -1, "violations_reported": 0, "first_identities": [], "machinery": ["patch does not apply: " + ap.stderr.strip()[:200]]}
     env = dict(os.environ, VERIF_REPO=wt, VERIF_OUT=out)
     p = subprocess.run(["/verif/bin/check", pid, "--tier", tier], capture_output=True, text=True, env=env, cwd="/verif")
     lines = [l for l in p.stdout.splitlines() if l.startswith(("VIOLATION", "  identity", "MACHINERY"))]
